@@ -444,3 +444,57 @@ package proxy
 //@   loop 4 invariant pendingPrev != nil && fresh(pendingPrev) && s.prevAckBySource != nil
 //@   loop 5 invariant pendingPrev != nil && sent != nil && sent != pendingPrev && len(shardToAck) == 0
 //@   loop 6 invariant pendingPrev != nil && sent != nil && sent != pendingPrev && len(shardToAck) == 0
+
+// ---------------------------------------------------------------------------------------------
+// C02 (receiver side): grouping by owning target shard and hand-off.
+// ---------------------------------------------------------------------------------------------
+
+//@ extern pure servercommon.WorkflowIDToHistoryShard
+//@   trusted go.temporal.io/server/common: farm-hash of (namespace id, workflow id) modulo the shard count, plus one (uninterpreted)
+//@ extern (adminservice.AdminService_StreamWorkflowReplicationMessagesClient).Recv@(*proxyStreamReceiver).recvReplicationMessages
+//@   trusted A-temporal: a replication batch holds non-nil task objects whose ids are below 2^62
+//@   ensures result0 != nil && msgsOf(result0) != nil ==> forall k int :: { msgsOf(result0).ReplicationTasks[k] } 0 <= k && k < len(msgsOf(result0).ReplicationTasks) ==>
+//@              msgsOf(result0).ReplicationTasks[k] != nil && (msgsOf(result0).ReplicationTasks[k].RawTaskInfo != nil ==> msgsOf(result0).ReplicationTasks[k].RawTaskInfo.TaskId < MaxID && msgsOf(result0).ReplicationTasks[k].RawTaskInfo.TaskId > MinInt64)
+//@   assigns nothing
+//@ extern quiet (ShardManager).GetRemoteSendChansByCluster
+//@ extern quiet (ShardManager).GetRemoteShardsForPeer
+//@ extern proto.Clone@(*proxyStreamReceiver).recvReplicationMessages(m)
+//@   trusted google.golang.org/protobuf: deep copy of the watermark-only message (same type, same watermark, no tasks)
+//@   ensures result != nil && fresh(result) && sametype(result, m)
+//@   ensures msgsOf(cast(result, "*adminservice.StreamWorkflowReplicationMessagesResponse")) != nil && len(msgsOf(cast(result, "*adminservice.StreamWorkflowReplicationMessagesResponse")).ReplicationTasks) == 0
+//@   assigns nothing
+//@ extern (ShardManager).DeliverMessagesToShardOwner@(*proxyStreamReceiver).recvReplicationMessages
+//@   trusted enqueues the message on the stream of the given target shard or reports failure (contract of the shard manager, see C09)
+//@   assigns nothing
+
+// ownedBy(t, K): K is the shard of the target cluster that owns task t's workflow under the target's shard count
+//@ pred ownedBy(r *proxyStreamReceiver, t *replicationv1.ReplicationTask, k history.ClusterShardID) = t != nil && t.RawTaskInfo != nil &&
+//@     k.ClusterID == r.targetShardID.ClusterID &&
+//@     k.ShardID == servercommon.WorkflowIDToHistoryShard(t.RawTaskInfo.NamespaceId, t.RawTaskInfo.WorkflowId, r.localShardCount) &&
+//@     t.RawTaskInfo.TaskId < MaxID && t.RawTaskInfo.TaskId > MinInt64
+// grouped(r, g): every group is non-empty, lives in its own backing array allocated by this call, and holds only tasks owned by its key
+//@ pred grouped(r *proxyStreamReceiver, g map[history.ClusterShardID][]*replicationv1.ReplicationTask) =
+//@     (forall k history.ClusterShardID :: { k in g } k in g ==> len(g[k]) >= 1 && fresh(g[k]) &&
+//@         (forall j int :: { g[k][j] } 0 <= j && j < len(g[k]) ==> ownedBy(r, g[k][j], k))) &&
+//@     (forall a history.ClusterShardID, b history.ClusterShardID :: { a in g, b in g } a in g && b in g && a != b ==> base(g[a]) != base(g[b]))
+
+// Whenever a task message is handed to the shard manager: it goes to the key of its group, carries exactly that
+// group's tasks (every one owned by that shard), an exclusive high watermark of last id + 1 and the batch priority.
+//@ contract (*proxyStreamReceiver).recvReplicationMessages
+//@   props C02
+//@   arith wrap
+//@   requires !(r.sourceShardID.ClusterID == 0 && r.sourceShardID.ShardID == 0)
+//@   callpre DeliverMessagesToShardOwner.2: @to_owner: $0 == targetShardID && targetShardID in tasksByTargetShard &&
+//@        msgsOf($1.Resp).ReplicationTasks == tasksByTargetShard[targetShardID] &&
+//@        (forall j int :: { tasksByTargetShard[targetShardID][j] } 0 <= j && j < len(tasksByTargetShard[targetShardID]) ==> ownedBy(r, tasksByTargetShard[targetShardID][j], targetShardID))
+//@   callpre DeliverMessagesToShardOwner.2: @watermark: msgsOf($1.Resp).ExclusiveHighWatermark == tasks[len(tasks) - 1].RawTaskInfo.TaskId + 1 &&
+//@        msgsOf($1.Resp).Priority == attr.Messages.Priority && $1.SourceShard == r.sourceShardID
+//@   loop 2 modifies fresh []*replicationv1.ReplicationTask
+//@   loop 2 invariant @map: tasksByTargetShard != nil && fresh(tasksByTargetShard)
+//@   loop 2 invariant @nonempty: forall k history.ClusterShardID :: { k in tasksByTargetShard } k in tasksByTargetShard ==> len(tasksByTargetShard[k]) >= 1 && fresh(tasksByTargetShard[k]) && allocated(tasksByTargetShard[k])
+//@   loop 2 invariant @owned: forall k history.ClusterShardID, j int :: { tasksByTargetShard[k][j] } k in tasksByTargetShard && 0 <= j && j < len(tasksByTargetShard[k]) ==> ownedBy(r, tasksByTargetShard[k][j], k)
+//@   loop 2 invariant @distinct: forall a history.ClusterShardID, b history.ClusterShardID :: { a in tasksByTargetShard, b in tasksByTargetShard } a in tasksByTargetShard && b in tasksByTargetShard && a != b ==> base(tasksByTargetShard[a]) != base(tasksByTargetShard[b])
+//@   loop 2 invariant forall k history.ClusterShardID :: { k in tasksByTargetShard } k in tasksByTargetShard ==> newSince(tasksByTargetShard[k])
+//@   loop 2 invariant cap(ids) == 0 || newSince(ids) || true
+//@   loop 7 invariant tasksByTargetShard != nil && fresh(tasksByTargetShard) && grouped(r, tasksByTargetShard) && sentByTarget != nil && sentByTarget != tasksByTargetShard
+//@   loop 8 invariant tasksByTargetShard != nil && fresh(tasksByTargetShard) && grouped(r, tasksByTargetShard) && sentByTarget != nil && sentByTarget != tasksByTargetShard
